@@ -39,7 +39,7 @@ REAL_STUB = {
              "uuid4 -> counter", "configuration A: server -> scripted peer using the real encode_message/stream_recv_msg"],
 }
 EXPECTED_PROBES = [f"fault_cut_{c}_{k}" for c in CUT_CLASSES for k in ("fin", "rst")] + [
-    "probe_two_or_more_pending", "probe_three_pending", "probe_out_of_order_arrival", "probe_call_after_loss", "probe_close_race", "probe_close_path_0", "probe_close_path_1", "probe_close_path_2", "probe_close_path_3",
+    "probe_two_or_more_pending", "probe_three_pending", "probe_out_of_order_arrival", "probe_call_after_loss", "probe_close_race", "probe_failing_function_form_request", "probe_close_path_0", "probe_close_path_1", "probe_close_path_2", "probe_close_path_3",
     "probe_retry_path", "probe_server_error", "probe_server_shutdown", "probe_peer_push_handled", "probe_cut_with_calls_pending",
     "probe_big_response", "probe_big_request", "probe_unencodable_request", "probe_broken_on_error_ran",
     "probe_many_unencodable_requests_then_a_call", "net_cut_timeout", "probe_two_connections", "line_preemptions_hot", "probe_bidirectional", "probe_reverse_call",
@@ -129,7 +129,7 @@ def scenario(ch, cfg):
         return int(x) + 1
     # ---- server
     bidir = bool(cfg.get("bidir"))
-    SRC = ["sq::{x*x}", "v::4711", "cnt::{[a];a::x;#a}", "big::{[a];a::x;!a}"]
+    SRC = ["sq::{x*x}", "v::4711", "cnt::{[a];a::x;#a}", "big::{[a];a::x;!a}", "failfn::{x+nosuchfn(x)}", "failfn2::{x,nosuchfn(y)}"]
     if peer_kind == "real":
         env.server.klong["unpd"] = {1: (lambda: 0)}      # a server-side value that cannot be pickled
         env.server.klong["ev"] = ev
@@ -139,7 +139,7 @@ def scenario(ch, cfg):
             SRC = SRC + ["cl::0", ".srv.o::{cl::x}"]
             env.client.klong["unpd"] = {1: (lambda: 0)}
             env.client.klong["ev"] = ev
-            for line in SRC[:4]:
+            for line in SRC[:6]:
                 env.client.klong(line)
         if fault != "connect-first":
             env.start_server(src=SRC)
@@ -287,7 +287,13 @@ def scenario(ch, cfg):
                 # (a function call / dictionary get on a name that does not exist)
                 # ... and a request that evaluates fine but to a value that cannot be sent back ("unpd")
                 msg, exp = ch.pick(["1+", "nosuchfn(1)", "[1 2 3]@99", ipc.KGRemoteFnCall(KGSym("nosuchfn"), [1]),
-                                    ipc.KGRemoteDictGetCall(KGSym("nosuchvar")), "unpd", ".x(0)"], "errexpr"), "error"
+                                    ipc.KGRemoteDictGetCall(KGSym("nosuchvar")), "unpd", ".x(0)",
+                                    # a function that exists and fails, called in function form with arguments of every kind
+                                    ipc.KGRemoteFnCall(KGSym("failfn"), [7]), ipc.KGRemoteFnCall(KGSym("failfn"), [[1, 2.5]]),
+                                    ipc.KGRemoteFnCall(KGSym("failfn"), ["text"]), ipc.KGRemoteFnCall(KGSym("failfn2"), ["a", 3]),
+                                    ipc.KGRemoteFnCall(KGSym("failfn2"), [KGSym("s"), {1: 2}])], "errexpr"), "error"
+                if isinstance(msg, ipc.KGRemoteFnCall) and str(msg.sym).startswith("failfn"):
+                    stats["probe_failing_function_form_request"] += 1
                 stats["probe_server_error"] += 1
                 if msg == ".x(0)":
                     # the evaluation ends through an exit request: a failed evaluation like any other (found: it ended the
